@@ -104,7 +104,7 @@ pub fn run(tier: &str, seed: u64, focus: &str, out: &mut Out) {
             }
         }
         // (2) random strings
-        for _ in 0..(if thorough { 4000 } else { 600 }) {
+        for _ in 0..(if thorough { 30000 } else { 600 }) {
             let n = rng.log_range(0, 600);
             let latin = rng.chance(1, 3);
             let s: Vec<u32> = (0..n).map(|_| if latin { if rng.chance(1, 3) { 0xA0 + rng.below(0x60) as u32 } else { 0x20 + rng.below(0x5F) as u32 } } else { rand_scalar(&mut rng) }).collect();
@@ -112,7 +112,7 @@ pub fn run(tier: &str, seed: u64, focus: &str, out: &mut Out) {
         }
         // (2b) runs of one class with a few unusual scalars inside (UTF-8 continuation bytes 0x80..0xBF inside C40/Text/X12 runs)
         let odd: [u32; 14] = [0x80, 0x85, 0x9F, 0x100, 0x153, 0x17F, 0x20AC, 0x2028, 0x1F600, 0xA0, 0x7F, 0x0A, 0xFEFF, 0xC9];
-        for _ in 0..(if thorough { 3000 } else { 500 }) {
+        for _ in 0..(if thorough { 20000 } else { 500 }) {
             let c = *rng.pick(&[Class::Upper, Class::Lower, Class::Digits, Class::X12, Class::EdifactPunct, Class::UpperDigit, Class::LowerSpace]);
             let n = rng.range(4, 40);
             let mut s: Vec<u32> = class_string(&mut rng, c, n).into_iter().map(|x| x as u32).collect();
@@ -383,7 +383,7 @@ pub fn run(tier: &str, seed: u64, focus: &str, out: &mut Out) {
             out.put(&json!({"id": next(), "fam": "str", "stratum": "utf8seqs", "events": [{"ev": "Utf8Seqs", "res": r}]}));
         }
         // valid UTF-8 of non-ASCII scalars under the 8-bit / 7-bit character sets
-        for _ in 0..(if thorough { 2000 } else { 300 }) {
+        for _ in 0..(if thorough { 20000 } else { 300 }) {
             let mut bs: Vec<u8> = Vec::new();
             for _ in 0..rng.range(1, 4) {
                 let c = if rng.chance(1, 3) { 0x20 + rng.below(0x5F) as u32 } else { rand_scalar(&mut rng) };
@@ -398,7 +398,7 @@ pub fn run(tier: &str, seed: u64, focus: &str, out: &mut Out) {
             out.put(&json!({"id": next(), "fam": "str", "stratum": "eciBodyUtf8", "events": [{"ev": "EciBody", "eci": eci, "bytes": bytes_json(&bs), "res": decode_str_of(s)}]}));
         }
         // streams that switch the ECI in the middle (and after a macro codeword): list of (eci, bytes) chunks
-        for _ in 0..(if thorough { 3000 } else { 400 }) {
+        for _ in 0..(if thorough { 20000 } else { 400 }) {
             let mac = match rng.below(5) { 0 => 236u8, 1 => 237, _ => 0 };
             let mut stream: Vec<u8> = if mac != 0 { vec![mac] } else { vec![] };
             let mut chunks: Vec<Value> = Vec::new();
@@ -451,7 +451,7 @@ pub fn run(tier: &str, seed: u64, focus: &str, out: &mut Out) {
             }
         }
         // ECI 27 (US-ASCII) and multi-ECI streams
-        for _ in 0..(if thorough { 2000 } else { 300 }) {
+        for _ in 0..(if thorough { 20000 } else { 300 }) {
             let n = rng.range(0, 8);
             let bs: Vec<u8> = (0..n).map(|_| if rng.chance(1, 5) { rng.byte() } else { rng.below(128) as u8 }).collect();
             let eci = *rng.pick(&[27u8, 3, 11, 13]);
